@@ -278,7 +278,7 @@ func c04Run(c *fw.Ctx, i int) {
 	r := c.R
 	reps := 4
 	if c.Thorough() {
-		reps = 60
+		reps = 400
 	}
 	if i < c04NumSingle() {
 		kw := kws[i/4]
